@@ -6,7 +6,7 @@ use crate::oracles;
 use crate::poolexplore::{self, PoolModel};
 use crate::report::{Ctx, Report};
 use crate::stdworlds::{self, Built};
-use crate::world::{Enc, StdWorld};
+use crate::world::{self, Enc, StdWorld};
 use serde_json::Value;
 use std::sync::atomic::{AtomicU64, Ordering};
 use svm::Ledger;
@@ -146,8 +146,63 @@ fn model<'a>(b: &'a Built, c: &'a Counters) -> PoolModel<'a> {
     )
 }
 
+/// Tick spacings 1, 2 and 4 are the only ones for which the lowest tick (-443636) is itself usable. A position bounded by it,
+/// a swap that runs down to the minimum price (the pool is then left at tick -443637, below every position), and liquidity
+/// changes of that position while the pool sits there: the invariant after every step.
+fn min_edge_case(ts: u16) -> Result<u64, String> {
+    use crate::refmodel::MIN_TICK;
+    let n = 88 * ts as i32;
+    let start = MIN_TICK.div_euclid(n) * n;
+    let t = ts as i32;
+    let spec = world::StdSpec {
+        label: format!("c05-min-edge-ts{ts}"),
+        tick_spacing: ts,
+        fee_rate: 3000,
+        protocol_fee_rate: 300,
+        sqrt_price: whirlpool::math::sqrt_price_from_tick_index(MIN_TICK + 10 * t),
+        arrays: vec![(start / n, Enc::Dynamic)],
+        positions: vec![(MIN_TICK, MIN_TICK + 20 * t, false), (MIN_TICK + 4 * t, MIN_TICK + 16 * t, true)],
+        t22_a: None,
+        t22_b: None,
+    };
+    let (l, w) = world::build_std(&spec);
+    let seq = [
+        Op::Inc { pos: 0, liq: 1_000_000, v2: true },
+        Op::Inc { pos: 1, liq: 3_000_000, v2: false },
+        Op::Swap { a_to_b: true, exact_in: true, amount: u64::MAX >> 8, lim: Lim::None, v2: true }, // down to the minimum price
+        Op::Inc { pos: 0, liq: 500_000, v2: false },
+        Op::Dec { pos: 0, part: crate::ops::Part::Half, v2: true },
+        Op::Inc { pos: 1, liq: 7, v2: true },
+        Op::Swap { a_to_b: false, exact_in: true, amount: u64::MAX >> 8, lim: Lim::Price(whirlpool::math::sqrt_price_from_tick_index(MIN_TICK + 10 * t)), v2: false }, // back up into the ranges
+        Op::Dec { pos: 0, part: crate::ops::Part::All, v2: false },
+    ];
+    let mut cur = l;
+    let mut done = 0;
+    for op in &seq {
+        let st = crate::ops::apply(&cur, &w, op);
+        if !st.outcome.ok() {
+            return Err(format!("tick spacing {ts}, position bounded by the lowest tick: {op:?} fails: {}", st.outcome.short()));
+        }
+        cur = st.ledger;
+        oracles::c05_invariant(&cur, &w).map_err(|e| format!("tick spacing {ts}, position bounded by the lowest tick, after {op:?} (pool tick {}): {e}", w.pool.state(&cur).tick_current_index))?;
+        done += 1;
+    }
+    Ok(done)
+}
+
 pub fn run(ctx: &Ctx) -> Report {
     let mut r = Report::new("C05", "model_checking");
+    let mut edge_ops = 0u64;
+    for ts in [1u16, 2, 4] {
+        match min_edge_case(ts) {
+            Ok(n) => edge_ops += n,
+            Err(e) => {
+                r.violation(format!("min_edge/{ts}"), e, serde_json::json!({"kind": "min_edge", "ts": ts}));
+                return r;
+            }
+        }
+    }
+    r.guard("operations_on_positions_bounded_by_the_lowest_tick", edge_ops);
     let ws = worlds(!ctx.tier.is_quick());
     let share = ctx.budget_s * 0.95 / ws.len() as f64;
     let c = Counters { states_two_in_range: AtomicU64::new(0), states_with_ticks: AtomicU64::new(0), states_no_ticks: AtomicU64::new(0) };
@@ -172,6 +227,9 @@ pub fn run(ctx: &Ctx) -> Report {
 }
 
 pub fn replay(case: &Value) -> Result<(), String> {
+    if case["kind"].as_str() == Some("min_edge") {
+        return min_edge_case(case["ts"].as_u64().ok_or("ts")? as u16).map(|_| ());
+    }
     let ws = worlds(true);
     let name = case["world"].as_str().ok_or("world")?;
     let b = ws.iter().find(|b| b.name == name).ok_or("unknown world")?;
